@@ -80,8 +80,13 @@ Definition resp_devs_t (lists : list (list dev)) (v : val) : option (list dev) :
   | VNone => None
   end.
 
-Definition c23_lazy (fixed : bool) (roots : list dev) (lists : list (list dev)) (tbl : list mview) (plan : stmt)
-           (runs : list (list input * list obs)) : bool :=
-  runs_ok (lazy_resume (cl_resume tie_fuel) (mk_t tbl) (view_t tbl) is_status_t (fun d => nth d roots d)
-                       (resp_devs_t lists) fixed)
-          (lazy_init (cl_init plan)) runs.
+Definition root_t (parents : list (dev * dev)) (d : dev) : dev :=
+  match root_ancestor (parent_t parents) forest_fuel d with Some r => r | None => 999 end.
+
+(* [fb] = the implementation-side mirror of finding class C23-b on these runs *)
+Definition c23_lazy (fixed : bool) (parents : list (dev * dev)) (lists : list (list dev)) (tbl : list mview) (plan : stmt)
+           (fb : bool) (runs : list (list input * list obs)) : bool :=
+  let res := lazy_resume (cl_resume tie_fuel) (mk_t tbl) (view_t tbl) is_status_t (root_t parents) (resp_devs_t lists) fixed in
+  let init := lazy_init (cl_init plan) in
+  runs_ok res init runs
+  && Bool.eqb fb (existsb (fun so => run_exists res c23b_step init (fst so)) runs).
